@@ -13,7 +13,10 @@ from .. import sc as M
 from ..core import OUT, TRUSTED_COMMON, build_and_audit, finish, idkey, load_known, unlisted_violations
 from ..sm import first_pred_failure, replay_sm, run_sm, targeted_search
 
-FIELDS = ["out", "nodes", "edges", "mem", "memb", "nattr", "eattr", "nattrK", "eattrK", "net", "uid", "frozen", "res"]
+FIELDS = ["out", "nodes", "edges", "mem", "memb", "nattr", "eattr", "nattrK", "eattrK", "net", "uid", "frozen", "res", "clone"]
+# freeze() and the three cloning routes validate the frozen semantics of SC.step (Props/C18S) and SC.copy / SC.ofComplex /
+# HG.pickleRoundTrip (Props/C07S) step by step; a history that freezes is refused everything afterwards, hence the small weight
+WEIGHTS = {"freeze": 0.5, "copy": 1.5, "pickle": 0.7, "construct": 1.5}
 
 ADD1 = ("add_simplex", "add_edge")
 ADDN = ("add_simplices_from", "add_edges_from", "add_weighted_simplices_from", "add_weighted_edges_from")
@@ -113,8 +116,11 @@ def pred(snap, op, prev, exc):
         if snap.get("res") is not want:
             fails.append(("has-simplex-wrong", f"has_simplex({op['members']}) = {snap.get('res')}, member sets say {want}"))
     pm = memmap(prev)
+    # (on a frozen complex every one of these calls is refused: what a removal / addition must achieve does not apply;
+    #  that nothing changes then is C18's clause, decided there and compared here with the model's frozen semantics)
+    thawed = not prev.get("frozen")
     # ---- removing a simplex removes exactly it and the simplices containing it
-    if name in RM1 + RMN and all(v is not None for v in pm.values()):
+    if thawed and name in RM1 + RMN and all(v is not None for v in pm.values()):
         ids = [op["e"]] if name in RM1 else op["es"]
         cur = dict(pm)
         start = set(cur)
@@ -132,7 +138,7 @@ def pred(snap, op, prev, exc):
             fails.append(("removal-inexact", f"after removing {ids}: expected simplices {srt(cur)} raise={raised}, "
                                              f"got {srt(mem)} raise={exc is not None}"))
     # ---- removing a node is strong: exactly the simplices containing it go
-    if name in ("remove_node", "remove_nodes_from") and all(v is not None for v in pm.values()):
+    if thawed and name in ("remove_node", "remove_nodes_from") and all(v is not None for v in pm.values()):
         ns = [op["n"]] if name == "remove_node" else op["ns"]
         cur, curn = dict(pm), [k(n) for n in prev["nodes"]]
         raised = False
@@ -203,7 +209,7 @@ def derive(snap):
 
 
 def small_scope():
-    """all call sequences of length <= 3 over an 18-call alphabet on the node universe {1,2,3}"""
+    """all call sequences of length <= 3 over a 20-call alphabet (incl. freeze and copy) on the node universe {1,2,3}"""
     A = lambda ms, idx="$auto": {"op": "add_simplex", "members": ms, "idx": idx, "attr": []}
     alpha = [A(list(c)) for r in (1, 2, 3) for c in itertools.combinations([1, 2, 3], r)]
     alpha += [A([1, 2, 3], 0), A([1, 2], 0)]
@@ -212,6 +218,7 @@ def small_scope():
                "max_order": None, "attr": []}]
     alpha += [{"op": "remove_simplex_id", "e": e} for e in (0, 1, 2, 3)]
     alpha += [{"op": "remove_simplex_ids_from", "es": [1, 0]}, {"op": "remove_node", "n": 1}, {"op": "remove_node", "n": 2}]
+    alpha += [{"op": "freeze"}, {"op": "copy"}]
     out = []
     for n in (1, 2, 3):
         for seq in itertools.product(alpha, repeat=n):
@@ -277,7 +284,9 @@ RULE = ("histories of 1-22 public calls on xgi.SimplicialComplex from one PRNG: 
         "automatic), add_simplices_from in the five formats with max_order in {None,0..4}, weighted additions, simplices "
         "of 1-6 nodes over universes of 4-7 labels (already-present, sub-face, overlapping, repeated-node, empty and "
         "None-containing member lists), remove_simplex_id(s_from) incl. ids that disappear mid-loop, remove_node(s), "
-        "close, cleanup, the deprecated aliases, has_simplex queries; corpus/C03 replays first; non-trivial = distinct "
+        "close, cleanup, the deprecated aliases, has_simplex queries, occasionally freeze() (everything after it must be "
+        "refused) and copy() / pickle round trip / SimplicialComplex(S) whose clone is compared with the model's; corpus/C03 "
+        "replays first; non-trivial = distinct "
         "full snapshot with a simplex of >=3 nodes after >=2 op kinds")
 ASSUMPTIONS = ["IDs restricted to int/str/None; bool/float/tuple node IDs and unhashable members outside the model",
                "set iteration order reaches the model only as order hints (creation order of faces and nodes, "
@@ -299,7 +308,7 @@ def run(ctx):
         ctx.extra["exhaustive_space"] = (f"correspondence (validation of the model, not the proof): all {len(extra)} call sequences "
                                          f"of length <= 3 over a {na}-call alphabet on the node universe {{1,2,3}}")
     dis, hist = run_sm(ctx, M, "SC", FIELDS, pred, ctx.n(170, 3000), hist_len=(1, 22), derive=derive,
-                       corr_name=CORR, extra_histories=extra)
+                       corr_name=CORR, extra_histories=extra, weights=WEIGHTS)
     dis = explain(ctx, dis, hist, CORR)
     conclude(ctx, ok, dis, hist)
     ctx.assumptions = ASSUMPTIONS
